@@ -28,6 +28,7 @@ THRESHOLDS = [1e-2, 1e-6, 1e-10]
 SCALE_LETTERS = [1.0, 1e-3, 1e3]
 REG_SLACK = 1e-10          # the NumPy routine divides by sqrt(delta + 1e-10): allowance per accepted vector
 ROUND = 1e-12              # round-off allowance relative to sqrt(A_ii A_jj)
+ROUND32 = 1e-6             # the same for a matrix handed over in single precision
 EXACT_TOL = 1e-9           # "exact" for float64 algebra, relative to sqrt(A_ii A_jj)
 FD_H = [1e-3, 5e-4, 2.5e-4]  # h-ladder; tangents are congruence-scaled like the matrix (entries of B B^T are O(1))
 FD_TOL = 1e-7
@@ -125,36 +126,44 @@ def elem_scale(A):
 
 
 # ----------------------------------------------------------------------------- part 1: NumPy routine
-def np_case(A, thr):
-    """Run the real routine on one matrix; returns (violates, signature, detail)."""
+def np_case(A, thr, dtype="float64"):
+    """Run the real routine on one matrix, handed over in the given dtype (a symmetric PSD matrix may
+    legitimately arrive as an integer array -- a Hubbard-U matrix, B @ B.T of an integer B -- or in single
+    precision); returns (violates, signature, detail)."""
     from ad_afqmc import pyscf_interface as pi
 
     n = A.shape[0]
+    name = "pyscf_interface.modified_cholesky" + ("" if dtype == "float64" else "[%s-input]" % dtype)
+    Ain = np.array(A, dtype=dtype)
+    A = np.array(Ain, dtype=float)          # what the caller actually passed, exactly
     try:
         with warnings.catch_warnings():
             warnings.simplefilter("ignore")
-            L = np.asarray(pi.modified_cholesky(np.array(A, dtype=float), thr))
+            L = np.asarray(pi.modified_cholesky(Ain, thr))
     except Exception as e:  # a routine that refuses a valid PSD input violates the property
-        return True, "pyscf_interface.modified_cholesky:raises", dict(exception=repr(e)[:300], matrix=np.asarray(A, dtype=float), threshold=thr)
+        return True, name + ":raises", dict(exception=repr(e)[:300], matrix=A, threshold=thr, dtype=dtype)
     if L.ndim != 2 or L.shape[1] != n:
-        return True, "pyscf_interface.modified_cholesky:bad-shape", dict(shape=list(L.shape))
+        return True, name + ":bad-shape", dict(shape=list(L.shape), dtype=dtype)
+    L = np.asarray(L, dtype=float)
     rec = L.T @ L
     err = np.abs(A - rec)
     # the routine divides every accepted vector by sqrt(delta + 1e-10): each of the <= n vectors leaves a
     # positive semi-definite residue of at most 1e-10 per element that no later pivot is obliged to remove
-    tol = thr + n * REG_SLACK + ROUND * elem_scale(A)
+    # single-precision input: the routine may work at the precision it was given (1e-6 relative ~ 8 float32 ulps)
+    tol = thr + n * REG_SLACK + (ROUND32 if dtype == "float32" else ROUND) * elem_scale(A)
     ok = np.all(np.isfinite(rec)) and np.all(err <= tol)
     if ok:
         return False, "", dict(nvec=L.shape[0])
     need = needed_vectors(A, thr)
     if L.shape[0] == n - 1 and need == n:
-        sig = "pyscf_interface.modified_cholesky:last-vector-dropped-when-loop-ends-on-size-limit"
+        sig = name + ":last-vector-dropped-when-loop-ends-on-size-limit"
     elif L.shape[0] < need:
-        sig = "pyscf_interface.modified_cholesky:too-few-vectors"
+        sig = name + ":too-few-vectors"
     else:
-        sig = "pyscf_interface.modified_cholesky:reconstruction-error>threshold"
+        sig = name + ":reconstruction-error>threshold"
     return True, sig, dict(max_err=float(np.nanmax(err)), threshold=thr, n_vectors_returned=int(L.shape[0]),
-                           n_vectors_needed=int(need), size=n, matrix=np.asarray(A, dtype=float), reconstructed=rec)
+                           n_vectors_needed=int(need), size=n, matrix=A, reconstructed=rec, input_dtype=dtype,
+                           vectors=L)
 
 
 def job_np(cfg):
@@ -177,6 +186,14 @@ def job_np(cfg):
                     res.guard("np_returned_full_size")
             if isc == 0:
                 res.nontrivial(("np", n, idx))
+                # the unscaled Gram matrix in its native integer dtype and as a single-precision copy
+                for dt in ("int64", "float32"):
+                    for thr in THRESHOLDS:
+                        bad, sig, det = np_case(M, thr, dt)
+                        res.add(states=1, transitions=1, evaluations=1, traces=1)
+                        res.guard("np_%s_input_cases" % dt)
+                        if bad:
+                            res.violation(sig, dict(part="np", n=n, index=idx, scaling=isc, threshold=thr, dtype=dt), det)
         if idx in (lo, lo + 1) and M.any():
             res.sample(dict(routine="pyscf_interface.modified_cholesky", n=n, B_BT=M.tolist(), columns=ncol, rank=rk,
                             scalings=len(sc), thresholds=THRESHOLDS))
@@ -729,7 +746,7 @@ def job(cfg):
 def run(ctx):
     ctx.rule = ("matrices = every distinct B B^T with B in {-1,0,1}^(n x r), r <= n (all multisets of <= n rank-one "
                 "terms, de-duplicated) x every congruence scaling D in {1e-3,1,1e3}^n (+ one generic mild scaling for the "
-                "JAX routine) x thresholds {1e-2,1e-6,1e-10} (NumPy routine) / n_chol = rank (JAX routine) x every "
+                "JAX routine) x thresholds {1e-2,1e-6,1e-10} (NumPy routine; the unscaled matrices additionally as int64 and float32 arrays) / n_chol = rank (JAX routine) x every "
                 "symmetric basis tangent (jvp vs central differences on an h-ladder, Richardson-extrapolated; at n = 4 the "
                 "derivative is taken for the scalings {1, mild, graded} only); molecules x bond scalings x thresholds for "
                 "chunked_cholesky against mol.intor('int2e'); the real propagate_phaseless_ad_1 (spy on the Cholesky call) for "
@@ -774,7 +791,7 @@ def run(ctx):
     # simplest cases first and in-process, so that the first counterexample recorded is the smallest one
     ctx.pmap(job, [dict(part="np", n=n, shard=(0, len(gram_catalogue(n))), seed=seed) for n in (1, 2)], workers=1)
     ctx.pmap(job, jobs)
-    ctx.require_guard("jvp_compared_rank-deficient", "jvp_compared_full-rank", "np_rank1_of_2", "chunked_cases",
+    ctx.require_guard("jvp_compared_rank-deficient", "jvp_compared_full-rank", "np_rank1_of_2", "np_int64_input_cases", "np_float32_input_cases", "chunked_cases",
                       "chunked_with_p_or_d_shells", "chunked_with_general_contraction", "chunked_threshold_changes_vector_count",
                       "sampler_cases", "sampler_jvp_compared_nonzero")
 
@@ -790,7 +807,8 @@ def replay(case):
         M = gram_catalogue(n)[case["index"]][0]
         d = scalings(n)[case["scaling"]]
         A = (M * np.outer(d, d)).astype(float)
-        bad, sig, det = np_case(A, case["threshold"])
+        dt = case.get("dtype", "float64")
+        bad, sig, det = np_case(M if dt != "float64" else A, case["threshold"], dt)
         return bad, dict(signature=sig, **det)
     if part == "jax":
         n, r = case["n"], case["rank"]
